@@ -66,7 +66,9 @@ CLAIMED = {
              "lockstep_op_outer, lockstep_op_batch, lockstep_end, Free.op_is_executor_op_view), given that the view the operated trie "
              "reads is complete for its root (discharged along blocks on a pruning trie: Free.view_complete_on_entry, "
              "view_complete_batch_op, complete_after_commit; and on a non-pruning trie: Free.np_view_complete_batch_op, "
-             "np_complete_after_commit); two specification subtleties were machine-found there (the view equals what ScratchDB "
+             "np_complete_after_commit); assembled over WHOLE HISTORIES of direct calls and blocks (left normally or by an "
+             "exception), pruning on or off: every call returns the same outcome in both worlds and they end in the same database, root "
+             "and counts (Free.history_lockstep); two specification subtleties were machine-found there (the view equals what ScratchDB "
              "reads only for caches with unique keys - view_is_what_is_read, cache_keys_unique_* - and the counts slot). "
              "Tie: exact db, root and counts after every step, every exit kind and position, for the tree-carrying AND the tree-free world.",
         technique="Lean 4 proof (invariants of the world executor) + correspondence check with fault injection",
